@@ -193,7 +193,7 @@ def main():
         final_viol.append(v)
     for i, v in enumerate(final_viol):
         fn = v['contract'].split('.')[-1]
-        path = os.path.join(HERE, 'replays', '%s-%s.%s.json' % (prop, fn, v['obligation'].replace('/', '_')))
+        path = os.path.join(HERE, 'replays', '%s-%s.%s.json' % (prop, fn, v['obligation'].replace('/', '_').replace(' ', '_')))
         v['property'] = prop
         v['repo'] = REPO
         v['how_to_replay'] = 'python3-vt /verif/check.py %s --replay %s' % (prop, path)
